@@ -288,13 +288,13 @@ Print Assumptions C10_used_is_last_use.
 (* The theorems above speak about `trace c (init c) evs` and `final c (init c) evs`; the trace that
    run_script prints (and bin/check compares with the implementation's) is a rendering of exactly these:
    record j shows observation j and the state after event j (result, value, inner call started, callers
-   with an inner call in flight, listener bits, one bit per entry of stores 0 and 1). *)
+   with an inner call in flight, listener bits, one bit per entry of stores 0 and 1 in two words each). *)
 Theorem C10_run_script_prints_the_history :
   forall (sc : list Z),
     let c := cfg_of sc in
     let n := Z.to_nat (zn sc 4) in
     let m := Z.to_nat (zn sc 5) in
-    let evs := evs_of n (chunk3 (firstn (3 * m) (skipn 6 sc))) (skipn (3 * m) (skipn 6 sc)) in
+    let evs := evs_of (unit_of sc) n (chunk3 (firstn (3 * m) (skipn 6 sc))) (skipn (3 * m) (skipn 6 sc)) in
     run_script sc = concat (map (record c n (init c) evs) (seq 0 (length evs))).
 Proof. exact run_script_records. Qed.
 Print Assumptions C10_run_script_prints_the_history.
